@@ -600,11 +600,18 @@ def run(ctx):
         contract = contract_probe(ctx)
         scs = gen_scenarios(ctx)
         results = []
+        hangs = 0
         for sc in scs:
             obs = run_impl(sc)
             if obs['skipped']:
                 ctx.count('skipped.' + obs['skipped'])
             results.append(obs)
+            hangs += any('hang' in p for p in obs.get('problems', []))
+            if hangs >= 3:
+                # an implementation whose efforts do not end: stop here, what was seen is reported
+                ctx.notes.append('stopped after %d scenarios: efforts hang' % len(results))
+                scs = scs[:len(results)]
+                break
     finally:
         W.uninstall()
     cuts = [region_cut(o) for o in results]
